@@ -17,3 +17,14 @@ Proof. exact Gen_small.gen_needspace_eq. Qed.
 Lemma tie_generated_atomok : forall c : N, (c < 256)%N ->
   GenCommon.retval (CGen.C_atomok.run 1 (MiniC.wraps 8 (Z.of_N c))) = Some (MiniC.b2z (Tok.atomok c)).
 Proof. exact Gen_small.gen_atomok_eq. Qed.
+(* hmatch() (which header field a line is) and atomcheck() (which atoms become quoted strings) as generated from today's
+   hfield.c / token822.c = the models *)
+From NQ Require Tie.Gen_header Base.Bytes.
+Lemma tie_generated_hmatch : forall s t : Bytes.bytes, GenCommon.bytes_ok s -> Forall (fun c => (32 <= c < 128)%N) t -> (Z.of_nat (List.length s) < 2 ^ 31)%Z ->
+  (Z.of_nat (List.length t) < 2 ^ 31)%Z ->
+  GenCommon.retval (CGen.C_hmatch.run (S (List.length s + List.length t)) (GenCommon.zs s) 0%Z (Z.of_nat (List.length s)) (GenCommon.zs t ++ [0%Z]) 0%Z) = Some (MiniC.b2z (Inject822.hmatch s t)).
+Proof. exact Gen_header.gen_hmatch_eq. Qed.
+Lemma tie_generated_atomcheck : forall s : Bytes.bytes, GenCommon.bytes_ok s -> (Z.of_nat (List.length s) < 2 ^ 31)%Z ->
+  option_map (fun r => CGen.C_atomcheck.v_t__type (snd r)) (CGen.C_atomcheck.run (S (List.length s)) (GenCommon.zs s) (Z.of_nat (List.length s)) 1%Z)
+  = Some (if existsb Tok.atom_bad s then 2%Z else 1%Z).
+Proof. exact Gen_header.gen_atomcheck_eq. Qed.
